@@ -38,6 +38,13 @@ class _Abort(Exception):
     pass
 
 
+_NM = {}      # name tokens of the specification -> names used in this behaviour (a refinement parameter, set per replay)
+
+
+def nm(n):
+    return _NM.get(n, n)
+
+
 def kind(slot):
     slot = int(slot)
     if slot == 0:
@@ -221,7 +228,7 @@ class World:
         ws = self.ws
         if act in ("CreateGroup", "CreateObject", "CreateWithUid"):
             s = int(a["s"])
-            kw = {"name": a["n"], "parent": self.ent(a["p"])}
+            kw = {"name": nm(a["n"]), "parent": self.ent(a["p"])}
             if act == "CreateWithUid":
                 kw["uid"] = self.slot2uid.get(s) or uuid.uuid4()
                 if self.variant % 3 == 1:
@@ -240,7 +247,7 @@ class World:
             self.bind(s, e)
         elif act == "CreateDeferred":
             e = ws.create_entity(self.group_class(a["s"]), save_on_creation=False,
-                                 entity={"name": a["n"], "parent": self.ent(a["p"])})
+                                 entity={"name": nm(a["n"]), "parent": self.ent(a["p"])})
             self.bind(a["s"], e)
         elif act == "ScrubData":
             o = self.ent(a["o"])
@@ -257,7 +264,7 @@ class World:
             others = [d for s2, d in self.side.items() if kind(s2) == "D" and getattr(d, "association", None) is not None
                       and d.name not in SPECIAL]
             del others   # (types are shared through SetType and copies, as the specification says)
-            e = o.add_data({a["n"]: spec})
+            e = o.add_data({nm(a["n"]): spec})
             self.bind(a["s"], e)
         elif act == "AddComment":
             o = self.ent(a["p"])
@@ -273,7 +280,7 @@ class World:
             e = o.add_default_visual_parameters()
             self.bind(a["s"], e)
         elif act == "Rename":
-            self.ent(a["s"]).name = a["n"]
+            self.ent(a["s"]).name = nm(a["n"])
         elif act == "SetFlag":
             self.ent(a["s"]).allow_delete = bool(a["b"])
         elif act == "SetVal":
@@ -300,7 +307,7 @@ class World:
             n = {"VERTEX": getattr(o, "n_vertices", None), "CELL": getattr(o, "n_cells", None)}.get(assoc) or 2
             known = {id(e) for e in self.side.values()}
             try:
-                o.add_data({a["n"]: {"values": self.values(1, n, "float"), "association": assoc}}, compression=10)
+                o.add_data({nm(a["n"]): {"values": self.values(1, n, "float"), "association": assoc}}, compression=10)
             finally:
                 new = [c for c in o.children if not _is_pg(c) and id(c) not in known]
                 if len(new) == 1:
@@ -339,13 +346,13 @@ class World:
                 gc.collect()
         elif act == "AddToGroup":
             o = self.ent(a["o"])
-            pgr = o.add_data_to_group([self.ent(a["d"])], a["n"])
+            pgr = o.add_data_to_group([self.ent(a["d"])], nm(a["n"]))
             self.pg2uid[int(a["p"])] = pgr.uid
         elif act == "PGWithUid":
             o = self.ent(a["o"])
             u = int(a["u"])
             uid = self.pg2uid[u] if kind(u) == "P" else self.slot2uid[u]
-            o.create_property_group(name=a["n"], uid=uid, properties=[self.ent(a["d"]).uid])
+            o.create_property_group(name=nm(a["n"]), uid=uid, properties=[self.ent(a["d"]).uid])
         elif act == "RemoveFromGroup":
             o = self.ent(a["o"])
             pgr = [g for g in (o.property_groups or []) if g.uid == self.pg2uid[int(a["p"])]][0]
@@ -374,6 +381,20 @@ class World:
                 same = ws.open() if self.variant % 2 else ws.open(mode=a["m"])
             if same is not ws:
                 raise Divergence("open-again-returns-other", "open() on an open workspace did not return the workspace", "C11")
+        elif act == "RemoveNotAChild":
+            c = self.ent(a["c"])
+            x = int(a["x"])
+            if kind(x) == "P":
+                owner = [e for s2, e in self.side.items() if kind(s2) == "O" and any(
+                    g.uid == self.pg2uid[x] for g in (e.property_groups or []))][0]
+                target = [g for g in owner.property_groups if g.uid == self.pg2uid[x]][0]
+            else:
+                target = self.ent(x)
+            import warnings
+            with warnings.catch_warnings():
+                warnings.simplefilter("ignore")
+                c.remove_children([target])
+            del target
         elif act == "RemoveViaParent":
             e = self.ent(a["s"])
             e.parent.remove_children([e])
@@ -685,6 +706,14 @@ class World:
                     raise Divergence("visual-parameters-of-another-object",
                                      f"object in slot {s} refers to visual parameters that are not among its children "
                                      f"(they belong to slot {self.slot_of(vp.parent.uid)})", "C12,C09")
+        try:    # the listing of property groups works at any time (also after some of them were removed and collected)
+            listed = {g.uid for g in self.ws.property_groups}
+        except Exception as exc:  # pylint: disable=broad-except
+            raise Divergence("property-group-listing-raises", f"ws.property_groups raised {type(exc).__name__}: {exc}", "C05,C01")
+        live_pgs = {g.uid for e in conts.values() if kind(self.slot_of(e.uid)) == "O" for g in (e.property_groups or [])}
+        if not live_pgs <= listed:
+            raise Divergence("property-group-not-listed", f"ws.property_groups misses {len(live_pgs - listed)} property group(s) "
+                             f"of live objects", "C05,C06")
         live_reg = set()
         names = self.ws.list_entities_name
         pg_uids = set(self.ws.list_property_groups_name)
@@ -814,20 +843,20 @@ def _val(s, r):
 
 
 def expect_live(st):
-    mem = {s: {"par": r["par"], "name": r["name"], "flag": r["flag"], "val": _val(s, r), "meta": r["meta"]}
+    mem = {s: {"par": r["par"], "name": nm(r["name"]), "flag": r["flag"], "val": _val(s, r), "meta": r["meta"]}
            for s, r in st["mem"].items() if r["par"] != -1}
     kids = {c: sorted(str(x) for x in v) for c, v in st["kids"].items() if c == "0" or st["mem"][c]["par"] != -1}
-    pgs = {p: {"owner": r["owner"], "name": r["name"], "props": sorted(str(x) for x in r["props"])}
+    pgs = {p: {"owner": r["owner"], "name": nm(r["name"]), "props": sorted(str(x) for x in r["props"])}
            for p, r in st["pg"].items() if r["owner"] != -1}
     return {"mem": mem, "kids": kids, "pg": pgs, "reg_live": sorted(mem), "types": _partition(st["mem"], lambda r: r["par"] != -1)}
 
 
 def expect_file(st):
-    fnode = {s: {"on": True, "name": r["name"], "flag": r["flag"], "val": _val(s, r), "meta": r["meta"],
+    fnode = {s: {"on": True, "name": nm(r["name"]), "flag": r["flag"], "val": _val(s, r), "meta": r["meta"],
                  "cont": {"G": "Groups", "O": "Objects", "D": "Data"}[kind(s)], "opt": st["fopt"][s]}
              for s, r in st["fnode"].items() if r["on"]}
     flink = sorted((str(a), str(b)) for a, b in st["flink"])
-    fpg = {p: {"owner": r["owner"], "name": r["name"], "props": sorted(str(x) for x in r["props"])}
+    fpg = {p: {"owner": r["owner"], "name": nm(r["name"]), "props": sorted(str(x) for x in r["props"])}
            for p, r in st["fpg"].items() if r["owner"] != -1}
     return {"fnode": fnode, "flink": flink, "fpg": fpg, "types": _partition(st["fnode"], lambda r: r["on"])}
 
@@ -842,10 +871,10 @@ def _partition(table, present):
 
 
 def expect_w2(st):
-    w2 = {y: {"on": True, "par": r["par"], "name": r["name"], "flag": r["flag"],
+    w2 = {y: {"on": True, "par": r["par"], "name": nm(r["name"]), "flag": r["flag"],
               "val": ("vp" if r["name"] in SPECIAL else (r["val"] if r["val"] != 0 else None)) if kind(int(y) % 100) == "D" else 0}
           for y, r in _as_map(st.get("w2", {})).items()}
-    pgs = {r: {"owner": g["owner"], "name": g["name"], "props": sorted(str(x) for x in g["props"])}
+    pgs = {r: {"owner": g["owner"], "name": nm(g["name"]), "props": sorted(str(x) for x in g["props"])}
            for r, g in _as_map(st.get("w2pg", {})).items()}
     return {"w2": w2, "w2pg": pgs}
 
@@ -900,6 +929,12 @@ def replay_path(item):
     viol = []
     steps = item["steps"]
     w = World(f"{os.getpid()}_{item['id']}", item.get("variant", 0))
+    # names are arbitrary text: in some variants one name token stands for the name of the project itself
+    _NM.clear()
+    if item.get("variant", 0) % 7 == 3:
+        _NM["b"] = w.ws.name
+    elif item.get("variant", 0) % 7 == 5:
+        _NM["a"] = w.ws.name
     pre = item["init"]
     done = []
     known_orphans = 0
